@@ -131,7 +131,7 @@ var storeModel = porcupine.Model{
 
 func TestC07StorageLin(t *testing.T) {
 	e := vrun.LoadEnv()
-	meta := vrun.Meta{Property: "C07", Workload: "TestC07StorageLin", Total: e.Pick(2000, 50000),
+	meta := vrun.Meta{Property: "C07", Workload: "TestC07StorageLin", Total: e.Pick(2000, 200000),
 		Rule:        "the two real in-memory sent storages (through the verif constructors): 2-8 goroutines x 2-3 stream ids x 20-60 operations (Store of a uniquely tagged chunk under sequence numbers 1-4, Remove, List, Clear); every call is recorded with call/return times from one atomic clock and the history is checked with porcupine against a per-stream sequential map model, PARTITIONED BY STREAM ID - partitioning is sound exactly when one stream's store is unaffected by operations on another's, so an illegal partition is the isolation violation. non-trivial = >= 2 streams had overlapping operations and at least one Clear; distinct = history hash",
 		Assumptions: []string{"a missing stream entry and an empty one are the same state (List may return an error or an empty map)", "porcupine timeout (10 s per case) = inconclusive"}}
 	vrun.Loop(t, meta, 0, func(c *vrun.Case) vrun.Result {
@@ -261,7 +261,7 @@ func TestC07StorageLin(t *testing.T) {
 
 func TestC07LiveIsolation(t *testing.T) {
 	e := vrun.LoadEnv()
-	meta := vrun.Meta{Property: "C07", Workload: "TestC07LiveIsolation", Total: e.Pick(120, 3000),
+	meta := vrun.Meta{Property: "C07", Workload: "TestC07LiveIsolation", Total: e.Pick(120, 10000),
 		Rule: "real time: one connection, 2-4 upstreams of mixed QoS and flush policies writing concurrently, 1-3 downstreams each fed chunks and metadata tagged with its own index, plus a churn goroutine that keeps opening, writing and closing further streams; acks batched per stream. Oracle per stream, from that stream's own ledger only: the C01 conservation/hook oracle for every upstream (an ack result of another stream showing up in a stream's hook is a 'phantom'), every downstream reads exactly the chunks addressed to it, in order. non-trivial = >= 2 upstreams and >= 1 downstream with >= 10 chunks each way and >= 3 churn cycles; distinct = (stream mix, churn cycles)",
 	}
 	vrun.Loop(t, meta, 0, func(c *vrun.Case) vrun.Result {
@@ -502,7 +502,7 @@ func runLive(c *vrun.Case) vrun.Result {
 
 func TestC07ResumeSideBySide(t *testing.T) {
 	e := vrun.LoadEnv()
-	meta := vrun.Meta{Property: "C07", Workload: "TestC07ResumeSideBySide", Total: e.Pick(200, 5000),
+	meta := vrun.Meta{Property: "C07", Workload: "TestC07ResumeSideBySide", Total: e.Pick(200, 20000),
 		Rule: "virtual time (the C05 scenario engine): at least one reliable and one non-reliable upstream plus 0-2 downstreams on one connection, 1-2 transport failures so that the streams resume side by side, acks partly withheld. Oracle: every reliable stream must satisfy the C02 no-loss oracle from its own ledger (so a neighbour's resume must not cost it a stored chunk), no stream's ack hook may report a result the broker did not send for that stream, and the recorded history of the connection's shared sent storage (recording wrapper around the real storage) must be linearizable per stream id against the per-stream map model. non-trivial = a fault fired and both a reliable and a non-reliable stream resumed; distinct = (QoS mix, fault positions)",
 	}
 	vrun.Loop(t, meta, 0, func(c *vrun.Case) vrun.Result {
